@@ -103,6 +103,35 @@ theorem no_trace_of_earlier_text_partial {A : Type} (h₁ h₂ : List (Op L K)) 
   rw [(history_independent_partial parse compute h₁ [] key s p₁ none (by simp) q hq).2,
       (history_independent_partial parse compute h₂ [] key s p₂ none (by simp) q hq).2]
 
+/-- **script_tree_from_parser.**  Where a Script takes its tree from (`Script.__init__`, the decision
+`treeMemo` read from the source): in EVERY state of the process, for every key and text, no
+remembered node object is used — the construction asks parso (`parseBuffer`: parser-cache item,
+diff parser or from-scratch parse) and the Script's module node is parso's answer.  This is what
+makes the premise "the incrementally re-parsed tree equals a from-scratch parse" sufficient for
+`derived_cache_inv`: the tree under the newest Script is never one that parso was not asked about
+for the current text. -/
+theorem script_tree_from_parser (st : State L T K V) (key : Option String) (s : L)
+    (ptime : Option Nat) :
+    remembered JediModel.Gen.C08.cfg st key s = none ∧
+    obtainTree JediModel.Gen.C08.cfg parse st key s ptime
+      = parseBuffer JediModel.Gen.C08.cfg parse st key s ptime := by
+  refine ⟨?_, obtainTree_eq_parseBuffer _ parse cfg_sound.nomemo st key s ptime⟩
+  unfold remembered
+  cases key <;> simp [cfg_sound.nomemo]
+
+/-- **undo_redo_independent_partial.**  Returning to an earlier text (undo, redo, revert, toggling a
+line: `… a … b₁ … bₙ … a`, any number of other texts, buffers, queries, ticks and collections in
+between, any distance): every query with matching signature lookups is answered as by a process
+that has only ever seen `a`.  (Partial for the same reason as `history_independent_partial`.) -/
+theorem undo_redo_independent_partial {A : Type} (h mid : List (Op L K)) (key : Option String)
+    (a : L) (p₁ p₂ p₃ : Option Nat) (q : Q K V A) (hq : q.Matched) :
+    answer JediModel.Gen.C08.cfg parse compute
+        (h ++ Op.script key a p₁ :: mid ++ [Op.script key a p₂]) q
+      = answer JediModel.Gen.C08.cfg parse compute [Op.script key a p₃] q := by
+  have := (history_independent_partial parse compute (h ++ Op.script key a p₁ :: mid) []
+    key a p₂ p₃ (by simp) q hq).1
+  simpa [List.append_assoc] using this
+
 /-- the FULL statement holds for every query once unmatched keys are not cached (the proposed fix
 `proposed_fixes/c08-signature-cache-none-key.diff`); stated for the source's other decisions -/
 theorem history_independent_when_unmatched_not_cached {A : Type} (h t : List (Op L K))
@@ -181,6 +210,30 @@ theorem stale_signature_cursor_below_bracket :
     ∧ answer { real with sigCachesUnmatched := true } P C
         [.script none 1 none, .sigq 5 false 7, .tick 1, .script none 2 none] sig0 = some 207 := by
   decide
+
+/-- **stale_if_script_remembers_trees.**  The same machine with a table of the module nodes of the
+last `n` (path, text) states in `Script.__init__` ("undo/redo" memo; parso is not asked on a hit) is
+not history independent although parso keeps its promise at every call: the remembered object is
+the one node the diff parser updates in place, so after `a, b, a` the Script for `a` holds the tree
+of `b`.  Exactly the histories that return to a text still in the table are affected: no revisit,
+a path-less buffer, or a table too small to still hold `a` give the fresh answer. -/
+theorem stale_if_script_remembers_trees :
+    answer { real with treeMemo := 8 } P C [.script p 1 none, .script p 2 none, .script p 1 none] ask1
+      = some 207
+    ∧ answer { real with treeMemo := 8 } P C [.script p 1 none] ask1 = some 107
+    ∧ answer real P C [.script p 1 none, .script p 2 none, .script p 1 none] ask1 = some 107
+    ∧ answer { real with treeMemo := 8 } P C [.script p 1 none, .script p 2 none, .script p 3 none] ask1
+      = some 307
+    ∧ answer { real with treeMemo := 8 } P C [.script none 1 none, .script none 2 none, .script none 1 none] ask1
+      = some 107
+    ∧ answer { real with treeMemo := 1 } P C [.script p 1 none, .script p 2 none, .script p 1 none] ask1
+      = some 107
+    ∧ answer { real with treeMemo := 8 } P C [.script p 1 none, .script p 1 none] ask1 = some 107 := by
+  decide
+
+/-- non-vacuity of `undo_redo_independent_partial`: an undo, a redo and a revert over three texts -/
+example : answer real P C [.script p 1 none, .lookup 7, .script p 2 none, .script p 1 none,
+    .script p 2 none, .script p 3 none, .lookup 7, .gc, .script p 1 none] ask1 = some 107 := by decide
 
 /-- the hypothesis of `history_independent_partial` is satisfiable by a query that does go through
 the signature cache -/
